@@ -112,16 +112,20 @@ example : hVal? (parseHeaders [b "Proxy-Authorization: Basic good", b "proxy-aut
 /-- **C08 response.**  At handler level the connection's first request failing
 authentication queues exactly the 407 packet of `proxy/http/responses.py` for
 the client and puts the connection into flush-then-close; the plugin object
-exists (`dispatched`), no upstream does. -/
+exists (`dispatched`), no upstream does — also when further bytes (`rest`: more
+requests, anything) arrived in the same read behind the request: they are not
+looked at. -/
 theorem C08_response (cfg : Cfg) (c : Bytes) (hc : AuthOn cfg c) (users : List Plugin) (ok : Bool) (r : Req)
-    (hbad : ¬ CredOk c (hVal? r.headers Auth.PROXY_AUTHORIZATION)) :
-    step cfg (authPlugin cfg :: users) {} (.first r ok) =
+    (hbad : ¬ CredOk c (hVal? r.headers Auth.PROXY_AUTHORIZATION)) (rest : Bytes) (more : List (Req × Bytes)) :
+    step cfg (authPlugin cfg :: users) {} (.first r ok rest more) =
       ({ dispatched := true, clBuf := [Px.Gen.pkt_PROXY_AUTH_FAILED_RESPONSE_PKT], closing := true },
        [Eff.call 0 .before (.req r), .clQ Px.Gen.pkt_PROXY_AUTH_FAILED_RESPONSE_PKT]) := by
-  have h : step cfg (authPlugin cfg :: users) {} (.first r ok) = firstStep cfg (authPlugin cfg :: users) {} r ok := by
-    simp [step]
-  rw [h, firstStep_eq, C08_reject cfg c hc users ok r hbad]
-  simp [raise, Exc.response, tearReq, clItems]
+  have hf : firstStep cfg (authPlugin cfg :: users) {} r ok =
+      ({ dispatched := true, clBuf := [Px.Gen.pkt_PROXY_AUTH_FAILED_RESPONSE_PKT], closing := true },
+       [Eff.call 0 .before (.req r), .clQ Px.Gen.pkt_PROXY_AUTH_FAILED_RESPONSE_PKT]) := by
+    rw [firstStep_eq, C08_reject cfg c hc users ok r hbad]
+    simp [raise, Exc.response, tearReq, clItems]
+  simp [step, hf]
 
 /-- **C08 whole connection.**  Whatever the client, the (non-existent) upstream
 and the socket do afterwards, and however often `shutdown()` runs: over the whole
@@ -129,21 +133,22 @@ connection there is no connection attempt, no byte for an upstream, the only
 thing ever queued for the client is the 407 packet, and the only request-handling
 hook invoked is the auth plugin's own check. -/
 theorem C08_reject_conn (cfg : Cfg) (c : Bytes) (hc : AuthOn cfg c) (users : List Plugin) (ok : Bool) (r : Req)
-    (hbad : ¬ CredOk c (hVal? r.headers Auth.PROXY_AUTHORIZATION)) (evs : List Ev) (n : Nat)
-    (l : Log) (hl : l = conn cfg (authPlugin cfg :: users) (.first r ok :: evs) n) :
+    (hbad : ¬ CredOk c (hVal? r.headers Auth.PROXY_AUTHORIZATION)) (rest : Bytes) (more : List (Req × Bytes))
+    (evs : List Ev) (n : Nat)
+    (l : Log) (hl : l = conn cfg (authPlugin cfg :: users) (.first r ok rest more :: evs) n) :
     connects l = [] ∧ upBytes l = [] ∧ clItems l = [Px.Gen.pkt_PROXY_AUTH_FAILED_RESPONSE_PKT] ∧
     (∀ i h a, Eff.call i h a ∈ l → reqHook h = true → (i = 0 ∧ h = .before)) := by
   subst hl
-  have hstep := C08_response cfg c hc users ok r hbad
-  have hq : Quiet (step cfg (authPlugin cfg :: users) {} (.first r ok)).1 := by
+  have hstep := C08_response cfg c hc users ok r hbad rest more
+  have hq : Quiet (step cfg (authPlugin cfg :: users) {} (.first r ok rest more)).1 := by
     rw [hstep]; exact ⟨rfl, Or.inl rfl⟩
   obtain ⟨_, hall⟩ := quiet_run cfg (authPlugin cfg :: users) _ evs hq
   obtain ⟨q1, q2, q3, q4⟩ := quiet_obs _ hall
   obtain ⟨f1, f2, f3, f4⟩ := sdPart_obs (authPlugin cfg :: users)
-    (run cfg (authPlugin cfg :: users) {} (.first r ok :: evs)).1 n
-  have hbody : (run cfg (authPlugin cfg :: users) {} (.first r ok :: evs)).2 =
+    (run cfg (authPlugin cfg :: users) {} (.first r ok rest more :: evs)).1 n
+  have hbody : (run cfg (authPlugin cfg :: users) {} (.first r ok rest more :: evs)).2 =
       [Eff.call 0 .before (.req r), .clQ Px.Gen.pkt_PROXY_AUTH_FAILED_RESPONSE_PKT] ++
-        (run cfg (authPlugin cfg :: users) (step cfg (authPlugin cfg :: users) {} (.first r ok)).1 evs).2 := by
+        (run cfg (authPlugin cfg :: users) (step cfg (authPlugin cfg :: users) {} (.first r ok rest more)).1 evs).2 := by
     simp only [run]; rw [hstep]
   unfold conn
   rw [hbody]
@@ -280,54 +285,141 @@ theorem C08_strip_first (cfg : Cfg) (ps : List Plugin) (ok : Bool) (r : Req) :
   · simp only [beforeChain, upBytes_append, upBytes_chain, List.nil_append] at hx
     exact hab _ _ x hx
 
+/-- an upgrade request was forwarded on this connection before or within this read
+    (the only situation, besides a CONNECT tunnel, in which client bytes are passed on raw) -/
+def UpgradeIn (ps : List Plugin) (st : St) (more : List (Req × Bytes)) : Prop :=
+  st.upgraded = true ∨ ∃ q ∈ more, ∃ y, (creqChain ps q.1).2 = .done y ∧ (fwdLater y).isUpgrade = true
+
+theorem tearReq_upgraded (st : St) (l : Log) : (tearReq st l).1.upgraded = st.upgraded := by
+  unfold tearReq; split <;> rfl
+theorem raise_upgraded (st : St) (l : Log) (e : Exc) : (raise st l e).1.upgraded = st.upgraded := by
+  unfold raise; split <;> simp [tearReq_upgraded]
+
+theorem follow_upgraded (cfg : Cfg) (ps : List Plugin) (st : St) (r : Req)
+    (h : (follow cfg ps st r).1.upgraded = true) :
+    st.upgraded = true ∨ ∃ y, (creqChain ps r).2 = .done y ∧ (fwdLater y).isUpgrade = true := by
+  rw [follow_eq] at h
+  split at h
+  · left; rw [raise_upgraded] at h; exact h
+  · left; exact h
+  · rename_i y hy
+    right; exact ⟨y, hy, h⟩
+
+theorem follow_up (cfg : Cfg) (ps : List Plugin) (st : St) (r : Req) :
+    ∀ x ∈ upBytes (follow cfg ps st r).2, ∃ z, Clean z ∧ x = z.build cfg.disableHeaders := by
+  intro x hx
+  rw [follow_eq] at hx
+  split at hx
+  · simp at hx
+  · simp at hx
+  · simp [upOfE] at hx
+    subst hx
+    exact ⟨_, clean_fwdLater _, rfl⟩
+
+/-- **C08 strip, every request of a read.**  However many complete requests are
+packed into one read: everything the follow-up loop queues for the upstream is
+`build` of a request without `proxy-authorization` / `proxy-connection` keys —
+except raw bytes passed on after an upgrade request was forwarded. -/
+theorem C08_strip_pipeline (cfg : Cfg) (ps : List Plugin) (st : St) (raw : Bytes) (more : List (Req × Bytes)) :
+    ∀ x ∈ upBytes (pipeline cfg ps st raw more).2,
+      (∃ z, Clean z ∧ x = z.build cfg.disableHeaders) ∨
+      (UpgradeIn ps st more ∧ (x = raw ∨ ∃ q ∈ more, x = q.2)) := by
+  induction more generalizing st raw with
+  | nil =>
+    intro x hx
+    simp only [pipeline] at hx
+    split at hx
+    · rename_i hu
+      simp [upOfE] at hx
+      exact Or.inr ⟨Or.inl hu, Or.inl hx⟩
+    · simp at hx
+  | cons q more ih =>
+    obtain ⟨r, rest⟩ := q
+    intro x hx
+    simp only [pipeline] at hx
+    split at hx
+    · rename_i hu
+      simp [upOfE] at hx
+      exact Or.inr ⟨Or.inl hu, Or.inl hx⟩
+    · split at hx
+      · exact Or.inl (follow_up cfg ps st r x hx)
+      · simp only [upBytes_append, List.mem_append] at hx
+        rcases hx with hx | hx
+        · exact Or.inl (follow_up cfg ps st r x hx)
+        · rcases ih _ _ x hx with h | ⟨hup, hraw⟩
+          · exact Or.inl h
+          · right
+            constructor
+            · rcases hup with hup | ⟨q, hq, y, hy, hu⟩
+              · rcases follow_upgraded cfg ps st r hup with h | ⟨y, hy, hu⟩
+                · exact Or.inl h
+                · exact Or.inr ⟨(r, rest), List.mem_cons_self, y, hy, hu⟩
+              · exact Or.inr ⟨q, List.mem_cons_of_mem _ hq, y, hy, hu⟩
+            · rcases hraw with rfl | ⟨q, hq, rfl⟩
+              · exact Or.inr ⟨(r, x), List.mem_cons_self, rfl⟩
+              · exact Or.inr ⟨q, List.mem_cons_of_mem _ hq, rfl⟩
+
+theorem clientData_up (cfg : Cfg) (ps : List Plugin) (st : St) (raw : Bytes) (more : List (Req × Bytes)) :
+    ∀ x ∈ upBytes (clientData cfg ps st raw more).2,
+      (∃ z, Clean z ∧ x = z.build cfg.disableHeaders) ∨ (st.tunnel = true ∧ x = raw) ∨
+      (UpgradeIn ps st more ∧ (x = raw ∨ ∃ q ∈ more, x = q.2)) := by
+  intro x hx
+  unfold clientData at hx
+  split at hx
+  · rw [noUpstreamData_eq] at hx
+    split at hx <;> simp at hx
+  · split at hx
+    · rename_i ht
+      simp [upOfE] at hx
+      exact Or.inr (Or.inl ⟨ht, hx⟩)
+    · rcases C08_strip_pipeline cfg ps st raw more x hx with h | h
+      · exact Or.inl h
+      · exact Or.inr (Or.inr h)
+
 /-- **C08 strip, later requests.**  Every item an event queues for the upstream is
-either raw client data passed through (tunnel, or after a forwarded upgrade
-request) or `build` of a request without `proxy-authorization` /
-`proxy-connection` keys — on the first and on every later request. -/
+`build` of a request without `proxy-authorization` / `proxy-connection` keys —
+the first request and every later one, however the requests are packed into
+reads — or raw client data passed through a CONNECT tunnel or after a forwarded
+upgrade request.  (`st'` is the state in which the client bytes are handled: the
+state before a `cdata` event, the state after `on_request_complete` for bytes
+packed behind the first request.) -/
 theorem C08_strip_later (cfg : Cfg) (ps : List Plugin) (st : St) (ev : Ev) :
     ∀ x ∈ upBytes (step cfg ps st ev).2,
       (∃ z, Clean z ∧ x = z.build cfg.disableHeaders) ∨
-      (∃ p, ev = .cdata x p ∧ (st.tunnel = true ∨ st.upgraded = true)) := by
+      (∃ st' raw more, (ev = .cdata raw more ∧ st' = st ∨
+                        ∃ r ok, ev = .first r ok raw more ∧ st' = (firstStep cfg ps st r ok).1) ∧
+        ((st'.tunnel = true ∧ x = raw) ∨ (UpgradeIn ps st' more ∧ (x = raw ∨ ∃ q ∈ more, x = q.2)))) := by
   intro x hx
-  cases ev with
-  | first r ok =>
-    simp only [step] at hx
+  have hfirst : ∀ r ok, ∀ x ∈ upBytes (firstStep cfg ps st r ok).2, ∃ z, Clean z ∧ x = z.build cfg.disableHeaders := by
+    intro r ok x hx
+    rw [firstStep_eq] at hx
     split at hx
-    · simp at hx
-    · rw [firstStep_eq] at hx
-      split at hx
-      · simp only [raise_upBytes] at hx
-        exact Or.inl (C08_strip_first cfg ps ok r x hx)
-      · exact Or.inl (C08_strip_first cfg ps ok r x hx)
-  | first400 =>
-    simp only [step] at hx
-    split at hx <;> simp [upOfE] at hx
-  | cdata raw parsed =>
+    · simp only [raise_upBytes] at hx
+      exact C08_strip_first cfg ps ok r x hx
+    · exact C08_strip_first cfg ps ok r x hx
+  cases ev with
+  | first r ok rest more =>
     simp only [step] at hx
     split at hx
     · simp at hx
     · split at hx
-      · rw [noUpstreamData_eq] at hx
-        split at hx <;> simp at hx
-      · split at hx
-        · rename_i ht
-          simp [upOfE] at hx
-          subst hx
-          exact Or.inr ⟨parsed, rfl, Or.inl ht⟩
-        · split at hx
-          · rename_i hu
-            simp [upOfE] at hx
-            subst hx
-            exact Or.inr ⟨parsed, rfl, Or.inr hu⟩
-          · split at hx
-            · simp at hx
-            · rw [follow_eq] at hx
-              split at hx
-              · simp at hx
-              · simp at hx
-              · simp [upOfE] at hx
-                subst hx
-                exact Or.inl ⟨_, clean_fwdLater _, rfl⟩
+      · exact Or.inl (hfirst r ok x hx)
+      · simp only [upBytes_append, List.mem_append] at hx
+        rcases hx with hx | hx
+        · exact Or.inl (hfirst r ok x hx)
+        · rcases clientData_up cfg ps _ rest more x hx with h | h
+          · exact Or.inl h
+          · exact Or.inr ⟨_, rest, more, Or.inr ⟨r, ok, rfl, rfl⟩, h⟩
+  | first400 =>
+    simp only [step] at hx
+    split at hx <;> simp [upOfE] at hx
+  | cdata raw more =>
+    simp only [step] at hx
+    split at hx
+    · simp at hx
+    · rcases clientData_up cfg ps st raw more x hx with h | h
+      · exact Or.inl h
+      · exact Or.inr ⟨st, raw, more, Or.inl ⟨rfl, rfl⟩, h⟩
   | udata raw =>
     simp only [step] at hx
     split at hx
@@ -344,6 +436,22 @@ theorem C08_strip_later (cfg : Cfg) (ps : List Plugin) (st : St) (ev : Ev) :
     · split at hx
       · simp at hx
       · split at hx <;> simp [upOfE] at hx
+
+/-- **C08 no smuggling.**  On a connection that is no tunnel and on which no
+upgrade request is forwarded, no packing of requests into a read makes a byte
+sequence reach the upstream other than rebuilt requests without
+`proxy-authorization` / `proxy-connection`. -/
+theorem C08_no_smuggling (cfg : Cfg) (ps : List Plugin) (st : St) (raw : Bytes) (more : List (Req × Bytes))
+    (ht : st.tunnel = false) (hu : ¬ UpgradeIn ps st more) :
+    ∀ x ∈ upBytes (step cfg ps st (.cdata raw more)).2, ∃ z, Clean z ∧ x = z.build cfg.disableHeaders := by
+  intro x hx
+  simp only [step] at hx
+  split at hx
+  · simp at hx
+  · rcases clientData_up cfg ps st raw more x hx with h | ⟨h, _⟩ | ⟨h, _⟩
+    · exact h
+    · rw [ht] at h; cases h
+    · exact absurd h hu
 
 /-- a `Clean` request really loses the credentials on the wire: no header line
 built from it was filed under `proxy-authorization` -/
